@@ -23,6 +23,8 @@
  * Options: --no-alloc  print A[? ?] instead of the allocated sizes (used for runs with
  *                      ASAN_OPTIONS=max_redzone=16, where the sizes of huge blocks are not available)
  */
+#include <sys/prctl.h>
+#include <signal.h>
 #include "simcams/simulated.camera.c"
 
 #include <inttypes.h>
@@ -434,6 +436,7 @@ op_tight(char** tok)
     fflush(stdout);
     pid_t pid = fork();
     if (pid == 0) {
+        prctl(PR_SET_PDEATHSIG, SIGKILL);
         close(fd[0]);
         dup2(fd[1], 2);
         signal(SIGALRM, SIG_DFL);
